@@ -298,9 +298,10 @@ var implementsRegex = regexp.MustCompile(
 )
 
 var constructorRegex = regexp.MustCompile(
-	`^\s*//\s*@constructor(?:\s+([a-zA-Z_][a-zA-Z0-9_]*(?:\s*,\s*[a-zA-Z_][a-zA-Z0-9_]*)*(?:\s*,)?))?(?:\s+.*)?$`,
+	`^\s*//\s*@constructor(?:\s+([\p{L}_][\p{L}\p{Nd}_]*(?:\s*,\s*[\p{L}_][\p{L}\p{Nd}_]*)*(?:\s*,)?))?(?:\s+.*)?$`,
 	//                              ^1
-	// 1: comma-separated constructor names (only valid Go identifiers, optional trailing comma)
+	// 1: comma-separated constructor names (only valid Go identifiers - Unicode letters and digits
+	//    included, as in the Go spec - optional trailing comma)
 )
 
 var immutableRegex = regexp.MustCompile(
